@@ -46,8 +46,8 @@ def IBody.fmls (i : Nat) (v : Term) : IBody → List Fml
       let durs := busy.map (fun b => Term.sub b.e b.s)
       match horizon with
       | some h =>
-          if durs.isEmpty then [.eq v (numT 0)]
-          else [.eq v (.mul (.sum durs) (numT (100 / h)))]
+          if durs.isEmpty then [.reqZero v]
+          else [.eq v (.div (.mul (.sum durs) (numT 100)) (numT h))]
       | none =>
           if durs.isEmpty then [.eq v (.div (numT 0) (.var .horizon))]
           else [.eq v (.div (.mul (.sum durs) (numT 100)) (.var .horizon))]
@@ -56,11 +56,11 @@ def IBody.fmls (i : Nat) (v : Term) : IBody → List Fml
   | .tardiness ts =>
       [.eq v (sumOrZero (ts.map (fun t =>
         let d := numT (t.due.getD 0)
-        Term.ite (.and [.le t.eVar d, t.schedF]) (numT 0) (.mul (.sub t.eVar d) (numT t.prio)))))]
+        Term.ite (.or [.le t.eVar d, .not t.schedF]) (numT 0) (.mul (.sub t.eVar d) (numT t.prio)))))]
   | .earliness ts =>
       [.eq v (sumOrZero (ts.map (fun t =>
         let d := numT (t.due.getD 0)
-        Term.ite (.ge (.sub d t.eVar) (numT 0)) (.sub d t.eVar) (numT 0))))]
+        Term.ite (.and [.ge (.sub d t.eVar) (numT 0), t.schedF]) (.sub d t.eVar) (numT 0))))]
   | .nbTardy ts =>
       [.eq v (sumOrZero (ts.map (fun t => Term.ite (.gt t.eVar (numT (t.due.getD 0))) (numT 1) (numT 0))))]
   | .maxLateness ts => getMaximum v (ts.map (fun t => Term.sub t.eVar (numT (t.due.getD 0))))
